@@ -9,22 +9,29 @@ CAP = "repr::heap_buffer::internal::Capacity::"
 ADDS = ("core::num::<impl usize>::checked_add", "core::num::<impl usize>::wrapping_add", "core::num::<impl usize>::saturating_add")
 
 
-def size_leaves(body, e, out, ops, depth=0):
+def size_leaves(body, e, out, ops, depth=0, seen=None):
     """decompose a size expression into additive leaves; record the combining operators"""
     e = strip_refs(e)
-    if depth > 20:
+    if seen is None:
+        seen = set()
+    if depth > 40:
         out.append("...")
         return
+    if e[0] == "loop":
+        return
     if e[0] == "call":
+        if ("call", e[1]) in seen:
+            return
+        seen.add(("call", e[1]))
         t = body.term(e[1])
         n = callee_name(t)
         if n in ADDS:
             ops.add(n.rsplit("::", 1)[1])
             for a in t["args"]:
-                size_leaves(body, body.origin_operand(a), out, ops, depth + 1)
+                size_leaves(body, body.origin_operand(a), out, ops, depth + 1, seen)
             return
         if n in ("core::option::Option::<T>::ok_or", "core::option::Option::<T>::and_then"):
-            size_leaves(body, body.origin_operand(t["args"][0]), out, ops, depth + 1)
+            size_leaves(body, body.origin_operand(t["args"][0]), out, ops, depth + 1, seen)
             if n.endswith("and_then"):
                 # the closure adds the on-heap length word when the layout needs it
                 clo = strip_refs(body.origin_operand(t["args"][1]))
@@ -42,21 +49,24 @@ def size_leaves(body, e, out, ops, depth=0):
         if inner[0] == "call":
             ct = body.term(inner[1])
             if callee_name(ct).endswith("::branch"):
-                size_leaves(body, body.origin_operand(ct["args"][0]), out, ops, depth + 1)
+                size_leaves(body, body.origin_operand(ct["args"][0]), out, ops, depth + 1, seen)
                 return
-        size_leaves(body, inner, out, ops, depth + 1)
+        size_leaves(body, inner, out, ops, depth + 1, seen)
         return
     if e[0] == "phi":
         for x in e[1]:
-            size_leaves(body, x, out, ops, depth + 1)
+            size_leaves(body, x, out, ops, depth + 1, seen)
         return
     if e[0] == "mem" or e[0] == "local":
         # a `let mut alloc_size` updated in place (32-bit): union of its definitions
+        if e[1] in seen:
+            return
+        seen.add(e[1])
         ds = body.defs.get(e[1], [])
         for d in ds:
             x = ("call", d[0]) if d[1] == "term" else body.origin_rvalue(d[2])
             if x != e:
-                size_leaves(body, x, out, ops, depth + 1)
+                size_leaves(body, x, out, ops, depth + 1, seen)
         return
     out.append(describe(body, e))
 
